@@ -10,7 +10,8 @@ from . import source as S
 
 
 class LoopSpec:
-    def __init__(self, invariant=None, types=None, label=None, havoc_fields=(), variant=None, unroll=None, ghost_update=None, ghost_havoc=None, hints=None):
+    def __init__(self, invariant=None, types=None, label=None, havoc_fields=(), variant=None, unroll=None, ghost_update=None, ghost_havoc=None, hints=None, heap_unchanged=False):
+        self.heap_unchanged = heap_unchanged  # frame invariant "every iteration starts in the heap of loop entry": no heap havoc; obligation: a continuing iteration leaves the heap terms untouched
         self.hints = hints  # callable(LoopCtx) -> list of formulas: ground instances of assumed (definitional) axioms
         self.ghost_havoc = ghost_havoc  # callable(ex): havoc the ghost state the loop changes
         self.ghost_update = ghost_update  # callable(LoopCtx): runs at the end of each iteration (ghost code)
@@ -27,6 +28,10 @@ class LoopCtx:
 
     def __init__(self, ex, env, idx=None, seq=None, pre=None):
         self.ex, self.env, self.idx, self.seq, self.pre = ex, env, idx, seq, pre or {}
+        self.phase = None  # "check" (inv-init / inv-step obligation) or "assume" (after havoc)
+
+    def get(self, name):
+        return self.env.lookup(name)
 
     def __getitem__(self, name):
         v = self.env.lookup(name)
@@ -319,12 +324,16 @@ class StmtMixin:
         assigned = S.assigned_names(body)
         mutated = S.mutated_names(body)
         pre = {}
+        if self.track_alloc:
+            self.tick()
         for name in sorted(assigned | mutated):
             v = env.lookup(name)
             if v is None:
                 continue
             if isinstance(v, (VFunc, VPy)):
                 continue
+            if isinstance(v, VRef) and name not in assigned:
+                continue  # calling a method on an object does not rebind the name; its fields are havocked through the heap
             pre[name] = v
             if name in mutated and name not in assigned and isinstance(v, (VSeq, VSet, VMap)):
                 # mutate the cell in place so that aliases see the havoc too
@@ -341,13 +350,35 @@ class StmtMixin:
                 continue
             if isinstance(v, VList) and name in mutated:
                 raise OutOfSubset(f"loop mutates concrete list `{name}`; declare its type (line {st.lineno})")
-            self.set_existing(env, name, self.force(self.havoc_like(name, v, spec, env)))
+            nv = self.force(self.havoc_like(name, v, spec, env))
+            self.assume_allocated(nv)
+            self.set_existing(env, name, nv)
         for (sort, field) in (spec.havoc_fields if spec else []):
             self.havoc_field(sort, field)
         if spec is not None and spec.ghost_havoc is not None:
             spec.ghost_havoc(self)
-        self.world.havoc_heap_for_loop(self, body)
+        if spec is not None and spec.heap_unchanged:
+            self.ghost.setdefault("frame_snapshots", {})[id(st)] = (self.snapshot_heap(), self.ghost.get("heap_version"))
+        else:
+            self.world.havoc_heap_for_loop(self, body)
         return pre
+
+    def check_heap_unchanged(self, st, spec, base):
+        if spec is None or not spec.heap_unchanged:
+            return
+        snap, hv = self.ghost["frame_snapshots"][id(st)]
+        same = True
+        for key, arrs in self.heap.items():
+            old = snap.get(key)
+            if old is None:
+                t = self.world.field_type(*key)
+                old = [z3.Const(f"H0.{key[0]}.{key[1]}" + (f"!{i}" if i else ""), z3.ArraySort(ref_sort(key[0]), so)) for i, so in enumerate(flat_sorts(t))]
+            if len(old) != len(arrs) or not all(a.eq(b) for a, b in zip(arrs, old)):
+                same = False
+        hv2 = self.ghost.get("heap_version")
+        if (hv is None) != (hv2 is None) or (hv is not None and not hv.eq(hv2)):
+            same = False
+        self.oblige(f"{base}#inv-step:heap_untouched_by_continuing_iterations", "inv-step", z3.BoolVal(same))
 
     def set_existing(self, env, name, v):
         e = env
@@ -386,6 +417,7 @@ class StmtMixin:
         if spec is None or spec.invariant is None:
             return
         self.add_hints(spec, lc)
+        lc.phase = kind
         res = self.eval_inv(spec, lc)
         items = res if isinstance(res, list) else [("inv", res)]
         for nm, f in items:
@@ -395,6 +427,7 @@ class StmtMixin:
         if spec is None or spec.invariant is None:
             return
         self.add_hints(spec, lc)
+        lc.phase = "assume"
         res = self.eval_inv(spec, lc)
         items = res if isinstance(res, list) else [("inv", res)]
         for _, f in items:
@@ -466,6 +499,7 @@ class StmtMixin:
                 return
             if spec is not None and spec.ghost_update is not None:
                 spec.ghost_update(LoopCtx(self, env, idx=i, seq=seq, pre=pre))
+            self.check_heap_unchanged(st, spec, base)
             self.check_inv(spec, LoopCtx(self, env, idx=i + 1, seq=seq, pre=pre), base, "inv-step")
             raise Halt()
         self.ex_block(st.orelse, env)
